@@ -212,6 +212,12 @@ def apply_deviation(dev: dict, hello: bytes, answer: bytes | None, bodies: list[
         return frames + data, 1, 0, {"*universal*"}, "handshake"
     if k == "name":
         return frames + data, 0, 0, {"BadNameAPIError"}, "handshake"  # mismatch comes from case["expected"]
+    if k == "name_bytes":
+        # the announced name differs from the expected one by bytes that are not valid UTF-8 (it cannot even be
+        # decoded): still "a mismatching device name" -- the session must end, nothing delivered (universal parts)
+        raw = bytes.fromhex(dev["hex"])
+        frames[0] = wire.enc_noise_outer(noise_ref.server_hello(raw))
+        return frames + data, 0, 0, {"*must-fail*"}, "handshake"
     raise ValueError(k)
 
 
@@ -529,6 +535,9 @@ def enumerated(tier):
             yield {**tr, "dev": {"kind": "hs_flip", "pos": pos, "mask": masks[-1]}, "seg": "one" if pos % 2 else "frames"}
         for ln in range(0, 49, 4):
             yield {**tr, "dev": {"kind": "hs_trunc", "len": ln}, "seg": "one"}
+        for raw in (b"dev\xff", b"\xfedev", b"d\x80ev", b"dev\xc3", b"\xed\xa0\x80dev", b"dev\xf8\x88\x80\x80\x80"):
+            for seg in ("one", "frames", "bytes"):
+                yield {**tr, "name": "dev", "expected": "dev", "dev": {"kind": "name_bytes", "hex": raw.hex()}, "seg": seg}
         for val in (1, 2, 3, 4, 8, 0x10, 0x20, 0x40, 0x7F, 0x80, 0xC3, 0xFE, 0xFF):
             yield {**tr, "dev": {"kind": "hs_status", "val": val}, "seg": ("one", "frames", "bytes")[val % 3]}
         for nm, ex in (("dev", "other"), ("", "dev"), ("devx", "dev"), ("Dev", "dev")):
@@ -608,6 +617,13 @@ def _case(draw, tier):
         d = {"kind": "hs_status", "val": draw(st.integers(1, 255))}
     elif k == 10:
         d = {"kind": "hs_flip", "pos": draw(st.integers(0, 47)), "mask": draw(st.sampled_from([1, 128, 255]))}
+    elif k == 11 and draw(st.integers(0, 3)) == 0:
+        base_n = draw(st.sampled_from([b"dev", b"kitchen", b"k\xc3\xbcche"]))
+        pos = draw(st.integers(0, len(base_n)))
+        bad = draw(st.sampled_from([b"\xff", b"\xfe", b"\x80", b"\xc3", b"\xed\xa0\x80", b"\xf5\x80\x80\x80"]))
+        d = {"kind": "name_bytes", "hex": (base_n[:pos] + bad + base_n[pos:]).hex()}
+        tr["name"] = base_n.decode()
+        tr["expected"] = base_n.decode()
     elif k == 11:
         d = {"kind": "name"}
         tr["name"] = draw(st.sampled_from(["dev", "", "x", "küche"]))
